@@ -34,7 +34,7 @@ func installInert(vm *ds.Context, kinds []string, lg *extLog) {
 			_ = vm.RegCustomDice(`^☃(\d+)`, never)
 		case "regex-unanchored":
 			// matches only away from the operand start, which does not count
-			_ = vm.RegCustomDice(`☃☃(\d*)`, never)
+			_ = vm.RegCustomDice(`zq(\d+)`, never)
 		case "regex-sometimes":
 			_ = vm.RegCustomDice(`^@([A-Z])(\d+)`, never)
 		case "stream-decline":
@@ -197,8 +197,9 @@ func installActing(vm *ds.Context, lg *protoLog) {
 }
 
 type protoGen struct {
-	r   *rand.Rand
-	ops []custOp
+	r    *rand.Rand
+	ops  []custOp
+	flat bool // a single expression: every evaluated operand appears in the process text as value[text...
 }
 
 // operand writes one custom operand evaluated `count` times and returns (text with the operand, text with its value)
@@ -281,7 +282,11 @@ func (g *protoGen) expr(d, count int) (string, string) {
 }
 
 func (g *protoGen) program() (string, string) {
-	switch g.r.Intn(5) {
+	switch g.r.Intn(6) {
+	case 5: // straight-line: the process text shows every operand with the value it had when it was evaluated
+		a, b := g.expr(2, 1)
+		g.flat = true
+		return a, b
 	case 0: // loop body: evaluated k times
 		k := 1 + g.r.Intn(3)
 		a, b := g.expr(1, k)
@@ -354,7 +359,15 @@ func init() {
 			lg := &extLog{}
 			installInert(b, kinds, lg)
 			var oa, ob []hostOut
-			for _, p := range hist {
+			for hi, p := range hist {
+				// text that the unanchored pattern finds, but never at the start of an operand
+				switch r.Intn(4) {
+				case 0:
+					p = p + " // zq7"
+				case 1:
+					p = "'zq12'; " + p
+				}
+				hist[hi] = p
 				expectSrc = a.RandSrc
 				oa = append(oa, observeRun(a, p, nil, false, false))
 				expectSrc = b.RandSrc
@@ -431,6 +444,17 @@ func init() {
 				}
 				varsAfter = varsOf(b)
 			}()
+			// the process text (rendered by observeRun before the handler's object was changed) names every evaluated operand with its value
+			shown := []map[string]any{}
+			if g.flat && !ob.Err && !ob.Panic && ob.Detail != "" {
+				for _, o := range g.ops {
+					if o.Count == 1 && !strings.ContainsAny(o.Text, "~～") {
+						want := fmt.Sprintf("%d[%s", o.Value, o.Text)
+						sub := fmt.Sprintf(",%s=%d", o.Text, o.Value) // inside a dice operand it is listed as a sub-roll
+						shown = append(shown, map[string]any{"want": want, "present": strings.Contains(ob.Detail, want) || strings.Contains(ob.Detail, sub)})
+					}
+				}
+			}
 			expectSrc = a.RandSrc
 			oa := observeRun(a, plain, nil, false, false)
 			if ob.Err || ob.Panic {
@@ -444,7 +468,7 @@ func init() {
 				g.ops = []custOp{}
 			}
 			w.Write(map[string]any{"ev": "c17p", "src": src, "plain": plain, "ops": g.ops, "events": evs, "listing": listing,
-				"a": oa, "b": ob, "retBefore": retBefore, "retAfter": retAfter, "varsBefore": varsBefore, "varsAfter": varsAfter})
+				"a": oa, "b": ob, "retBefore": retBefore, "retAfter": retAfter, "varsBefore": varsBefore, "varsAfter": varsAfter, "shown": shown})
 		}
 		emitSummary(map[string]any{"programs": *n})
 		return 0
